@@ -3,7 +3,7 @@ printer shared with the C08 driver).  Every request carries the dictionary state
 
   lit <default|-> <list of [k,v]>      idx|sidx|in|rem|addk|delk <dict> <key>
   set <dict> <key> <value>             opa <dict> <key> <pair|left|right|fail> <value>
-  union|inter|diff|uadd|eq <a> <b>     insp <dict> <pair>
+  union|inter|diff|uadd|eq|ne <a> <b>     insp <dict> <pair>
   mkset|mkdict|uniq|freq|cdist|group|classify|memo <list>
   keys|values|items|len <dict>
 Response: `<impl>\t<spec>\t-`; results whose order comes out of a `HashMap` are sorted by text. -/
@@ -52,6 +52,7 @@ def handle (args : List String) : String :=
       | "diff" => both fun h => DictOps.diff h x y
       | "uadd" => both fun h => DictOps.unionAdd h x y
       | "insp" => both fun h => DictOps.insertPair h x y
+      | "ne" => renderOut (.ok (ofBool (!valEq x y))) ++ "\t" ++ renderOut (.ok (ofBool (!OrdSpec.eq x y))) ++ "\t-"
       | "eq" => renderOut (.ok (ofBool (valEq x y))) ++ "\t" ++ renderOut (.ok (ofBool (OrdSpec.eq x y))) ++ "\t-"
       | _ => "bad-op"
     | _, _ => "bad-op"
